@@ -354,24 +354,23 @@ def run_race(case):
     viol = []
     cid = "race"
     Ev = ns.base.Event
-    old = [PK["K1"], PK["K2"]]
-    new = [PK["K2"], PK["K3"]]
+    OLD_NEW = {"overlapping": ([PK["K1"], PK["K2"]], [PK["K2"], PK["K3"]]), "disjoint": ([PK["K1"], PK["K2"]], [PK["K3"], PK["K4"]])}
     outsider = make_event("K5", 1, NOW, [], "outsider")
     insider = make_event("K2", 1, NOW, [], "in both lists")
     allow_q = [{"kinds": [3]}]
-    res_ev = Ev(**make_event("A", 3, NOW - 1, [["p", x] for x in new], ""))
+    res_evs = {k: Ev(**make_event("A", 3, NOW - 1, [["p", x] for x in v[1]], "")) for k, v in OLD_NEW.items()}
     outcomes = set()
     stats = {"n": 0, "insider_refused": 0}
     ns.Config.dynamic_lists = {"allow_list_queries": allow_q}
     ns.Config.pubkey_whitelist = []
     ns.Config.service_privatekey = None
 
-    def make_threads_for(target_event, label):
+    def make_threads_for(target_event, label, rot="overlapping"):
         def mk():
             D.ALLOWED_PUBKEYS.clear()
-            D.ALLOWED_PUBKEYS.update(bytes.fromhex(x) for x in old)
+            D.ALLOWED_PUBKEYS.update(bytes.fromhex(x) for x in OLD_NEW[rot][0])
             D.DENIED_PUBKEYS.clear()
-            stub = StubStorage({json.dumps(allow_q, sort_keys=True): [res_ev]})
+            stub = StubStorage({json.dumps(allow_q, sort_keys=True): [res_evs[rot]]})
             D.get_storage = lambda: stub
             b = D.ListBuilder()
 
@@ -394,28 +393,28 @@ def run_race(case):
         return mk
 
     try:
-        for label, target in (("outsider", outsider), ("insider", insider)):
+        for label, target, rot in (("outsider", outsider, "overlapping"), ("outsider", outsider, "disjoint"), ("insider", insider, "overlapping")):
             for opcodes in ((False, True) if tier == "thorough" else (False,)):
                 bound = 2 if not opcodes else 2
 
-                def on_run(r, label=label, opcodes=opcodes):
+                def on_run(r, label=label, opcodes=opcodes, rot=rot):
                     stats["n"] += 1
                     res = r.threads[1].result
                     outcomes.add((label, res))
                     if r.threads[0].exc or r.threads[1].exc:
                         raise RuntimeError("thread raised: %r %r" % (r.threads[0].exc, r.threads[1].exc))
                     if label == "outsider" and res != "refused":
-                        viol.append({"case": cid, "clause": "no-window-where-enforced-allow-list-is-empty", "sig": "%s|%s" % ("opcode" if opcodes else "line", r.taken),
-                                     "detail": "a pubkey that is in neither the old nor the new allow list was admitted by is_pubkey_allowed in schedule %r "
-                                               "(granularity=%s); trace tail=%r" % (r.taken, "opcode" if opcodes else "line", r.trace[-6:])})
+                        viol.append({"case": cid, "clause": "no-window-where-enforced-allow-list-is-empty", "sig": "%s|%s|%s" % ("opcode" if opcodes else "line", rot, r.taken),
+                                     "detail": "a pubkey that is in neither the old nor the new allow list (%s rotation) was admitted by is_pubkey_allowed in "
+                                               "schedule %r (granularity=%s); trace tail=%r" % (rot, r.taken, "opcode" if opcodes else "line", r.trace[-6:])})
                     if label == "insider" and res != "admitted":
                         stats["insider_refused"] += 1
 
                 # CPython's adaptive interpreter reports fewer opcode events while the code is cold: warm the two functions up
                 # under the tracer first so that every counted schedule sees the same (full) set of scheduling points
                 for _ in range(3):
-                    threadmc.explore(make_threads_for(target, label), 0, lambda r: None, opcodes=opcodes)
-                threadmc.explore(make_threads_for(target, label), bound, on_run, opcodes=opcodes)
+                    threadmc.explore(make_threads_for(target, label, rot), 0, lambda r: None, opcodes=opcodes)
+                threadmc.explore(make_threads_for(target, label, rot), bound, on_run, opcodes=opcodes)
     finally:
         from nostr_relay.storage import get_storage as real_get
 
@@ -426,7 +425,7 @@ def run_race(case):
     # keep one witness per granularity
     uniq = {}
     for v in viol:
-        uniq.setdefault(v["sig"].split("|")[0], v)
+        uniq.setdefault("|".join(v["sig"].split("|")[:2]), v)
     return list(uniq.values()), stats["n"], len(outcomes) > 1, stats
 
 
